@@ -229,6 +229,13 @@ func init() {
 			return Term{"(" + uf + " " + asTerm(a[0]).S + ")", SInt}, true
 		}
 	}
+	libModels["math.IsInf"] = func(x *Exec, st *State, e *ast.CallExpr, a []Value, _ []types.Type) (Value, bool) {
+		// IsInf(f, 0): f is an infinity of either sign (only this form is modelled)
+		if len(a) != 2 || asTerm(a[1]).S != "0" {
+			return nil, false
+		}
+		return Term{"(fIsInf " + asTerm(a[0]).S + ")", SBool}, true
+	}
 	libModels["constant.BoolVal"] = func(x *Exec, st *State, e *ast.CallExpr, a []Value, _ []types.Type) (Value, bool) {
 		return Term{"(constBoolVal " + asTerm(a[0]).S + ")", SBool}, true
 	}
@@ -1135,10 +1142,10 @@ func (x *Exec) evalSpecCall(e *ast.CallExpr, st *State) (Value, types.Type) {
 		}
 		rtype := fn.Type().(*types.Signature).Results().At(idx).Type()
 		return x.uf(fmt.Sprintf("fn_%s_r%d", calleeName(fn), idx), x.sortOf(rtype), ts...), rtype
-	case "forallS", "existsS": // quantifier over all strings: forallS(k, body)
+	case "forallS", "existsS", "forallR", "existsR": // over all strings: forallS(k, body); over all references/integers: forallR(x, body)
 		id, ok := e.Args[0].(*ast.Ident)
 		if !ok || len(e.Args) != 2 {
-			engineFail("forallS/existsS need (name, body)")
+			engineFail("forallS/existsS/forallR/existsR need (name, body)")
 		}
 		x.nfresh++
 		qn := fmt.Sprintf("%s_q%d", id.Name, x.nfresh)
@@ -1146,7 +1153,11 @@ func (x *Exec) evalSpecCall(e *ast.CallExpr, st *State) (Value, types.Type) {
 		if x.quant == nil {
 			x.quant = map[string]Term{}
 		}
-		x.quant[id.Name] = Term{qn, SStr}
+		qsort := SStr
+		if strings.HasSuffix(name, "R") {
+			qsort = SInt
+		}
+		x.quant[id.Name] = Term{qn, qsort}
 		body := x.evalBool(e.Args[1], st)
 		if had {
 			x.quant[id.Name] = saved
@@ -1154,10 +1165,10 @@ func (x *Exec) evalSpecCall(e *ast.CallExpr, st *State) (Value, types.Type) {
 			delete(x.quant, id.Name)
 		}
 		q := "forall"
-		if name == "existsS" {
+		if strings.HasPrefix(name, "exists") {
 			q = "exists"
 		}
-		return Term{"(" + q + " ((" + qn + " String)) " + body + ")", SBool}, types.Typ[types.Bool]
+		return Term{"(" + q + " ((" + qn + " " + string(qsort) + ")) " + body + ")", SBool}, types.Typ[types.Bool]
 	case "rvInt", "rvFloat", "rvComplex", "rvString", "rvBool", "rvIface":
 		which := map[string]string{"rvInt": "I", "rvFloat": "F", "rvComplex": "C", "rvString": "S", "rvBool": "B", "rvIface": "X"}[name]
 		return x.rvRead(st, which, x.evalT(e.Args[0], st)), nil
@@ -1268,7 +1279,7 @@ func (x *Exec) evalSpecCall(e *ast.CallExpr, st *State) (Value, types.Type) {
 				_, isType := obj.(*types.TypeName)
 				isSpec = isPred || isSpecFn || isFunc || isType || (!inNames && x.conScope[id.Name] == nil && !x.openCaptured)
 				switch id.Name {
-				case "implies", "iff", "ite", "old", "forall", "exists", "len", "has", "fresh", "substr", "nth", "forallS", "existsS", "atSelect", "calledAt", "tracedAt", "rvInt", "rvFloat", "rvComplex", "rvString", "rvBool", "rvIface":
+				case "implies", "iff", "ite", "old", "forall", "exists", "len", "has", "fresh", "substr", "nth", "forallS", "existsS", "forallR", "existsR", "atSelect", "calledAt", "tracedAt", "rvInt", "rvFloat", "rvComplex", "rvString", "rvBool", "rvIface":
 					isSpec = true
 				}
 			}
